@@ -68,6 +68,32 @@ for name in sys.argv[2:]:
 """
 
 
+def table_one_room(rep):
+    """well-formed URLs of an undivided board (one room of h*w cells) well below the size at which the recursive flood fill of the
+    unchanged code reaches the interpreter's recursion limit (about 31x31 at the default limit of 1000): they must decode to one
+    room (finite table, labelled; recursion limit pinned to 1000 for the table)"""
+    import sys
+    from cspuz.puzzle import lits
+    old = sys.getrecursionlimit()
+    sys.setrecursionlimit(1000)
+    try:
+        for (h, w) in [(12, 12), (20, 20), (25, 25), (15, 40), (40, 15)]:
+            rep.finite_tables += 1
+            nchar = -(-(h * (w - 1)) // 5) + -(-((h - 1) * w) // 5)
+            url = "https://puzz.link/p?lits/%d/%d/%s" % (w, h, "0" * nchar)
+            try:
+                r = lits.deserialize_lits(url)
+                ok = r is not None and r[0] == h and r[1] == w and len(r[2]) == 1 and len(r[2][0]) == h * w
+                what = "decoded to %s" % (None if r is None else "%d room(s)" % len(r[2]))
+            except Exception as e:      # noqa: B902
+                ok, what = False, "raised %s" % type(e).__name__
+            if not ok:
+                rep.counterexample("one-room:%dx%d" % (h, w), "undivided %dx%d lits board %s" % (h, w, what), {"engine": "table", "what": "one-room"}, True)
+                return
+    finally:
+        sys.setrecursionlimit(old)
+
+
 def table_huge(rep):
     """declared sizes far beyond memory with short bodies: None / ValueError, promptly, without allocating the board first
     (finite table in a subprocess with a 4 GiB address-space limit; no solver involved, labelled)"""
@@ -111,6 +137,7 @@ def run(tier, only=None):
     nd_table(rep, fns, ["-10g", "+100", "11g", "g1", "0."])
     if not only:
         table_huge(rep)
+        table_one_room(rep)
     rep.functions = ["deserialize_problem / deserialize_problem_as_url / get_puzzle_info_from_url", "all Combinator.deserialize methods",
                      "the nine puzzle codecs' *_COMBINATOR", "YajilinClue.deserialize"]
     rep.bounds = {"bodies": "EVERY Unicode text of length <= 3 (4 on two-cell boards for the hex codecs) per codec and per declared (height,width)",
@@ -130,6 +157,12 @@ def run(tier, only=None):
 
 
 def replay(payload, verbose=False):
+    if payload.get("what") == "one-room":
+        rep = common.Report("C17", "quick", "other", FILES)
+        hits = []
+        rep.counterexample = lambda key, text, pl, ok: hits.append(text)   # type: ignore
+        table_one_room(rep)
+        return bool(hits)
     if payload.get("what") == "huge":
         rep = common.Report("C17", "quick", "other", FILES)
         hits = []
